@@ -520,8 +520,28 @@ def orm_memo(prog: Program) -> RuleResult:
     return r
 
 
+def orm_order(prog: Program) -> RuleResult:
+    """A DAO class is emitted after the DAO it inherits from. Which DAO that is, is decided by WrappedTable._find_direct_parent_wrapped - the
+    nearest ancestor *along the MRO* that is part of the diagram, skipping classes that are not. The graph whose topological order is the
+    emission order has to know the same dependency: built from the diagram's direct-base edges alone it has no edge GA -> GC when GB(GA),
+    GC(GB) and GB is not in the diagram, and `class GCDAO(GADAO)` can come out before `class GADAO`."""
+    r = RuleResult("ORM-ORDER", "the emission order of the DAOs knows every parent the DAOs are given", floor=1)
+    wt = prog.cls("wrapped_table.WrappedTable")
+    om = prog.cls("ormatic.ORMatic")
+    parent = prog.lookup(wt.qual, "_find_direct_parent_wrapped")
+    graph = prog.lookup(om.qual, "_create_inheritance_graph")
+    if parent is None or graph is None:
+        raise AnalysisError("ORM-ORDER: WrappedTable._find_direct_parent_wrapped / ORMatic._create_inheritance_graph vanished")
+    walks = lambda f: any(isinstance(x, ast.Attribute) and x.attr == "__mro__" for x in walk_local(f.node)) or any(call_name(c) in ("mro", "parent_table", "_find_direct_parent_wrapped") for c in calls_in(f.node)) \
+        or any(isinstance(x, ast.Attribute) and x.attr == "parent_table" for x in walk_local(f.node))
+    r.check(walks(graph) or not walks(parent), "ORMatic._create_inheritance_graph#nearest-diagram-ancestor", site(graph), "", "the ordering graph has an edge from the nearest ancestor in the diagram",
+            "the DAO parent is the nearest diagram class along the MRO, the ordering graph only has the diagram's direct-base edges: with an intermediate class left out of the diagram "
+            "(GA, GB(GA), GC(GB); diagram [GA, GC]) GCDAO(GADAO) is written before GADAO and the generated module fails to import (NameError) - in the other declaration order it works")
+    return r
+
+
 def run(prog: Program, tier: str) -> List[RuleResult]:
     # the generator reads every field through its resolved annotation: an unresolved forward reference is no class to map
     from .c17 import wf_resolved
 
-    return [wf_table(prog), orm_dispatch(prog), orm_imports(prog), orm_names(prog), orm_determinism(prog), orm_memo(prog), wf_resolved(prog)]
+    return [wf_table(prog), orm_dispatch(prog), orm_imports(prog), orm_names(prog), orm_determinism(prog), orm_memo(prog), wf_resolved(prog), orm_order(prog)]
